@@ -49,6 +49,7 @@ pub struct Fired {
     pub delay: u64,
     pub eof: u64,
     pub eof_mid_frame: u64,
+    pub read_error: u64,
     pub epipe: u64,
     pub stall_rx: u64,
     pub short_write: u64,
@@ -73,6 +74,8 @@ pub struct RunRecord {
     /// bytes the server consumed from stdin
     pub consumed: u64,
     pub eof_at: Option<usize>,
+    /// the stream ended with an I/O error instead of end of input
+    pub read_error: bool,
     pub epipe_fired: bool,
     pub doc_obs: Vec<DocObs>,
     pub lex_obs: Vec<LexObs>,
@@ -178,7 +181,7 @@ fn build_segments(sc: &Scenario, frames: &[Vec<u8>], total: usize) -> (Vec<Segme
 }
 
 pub fn session_bytes(sc: &Scenario) -> (Vec<Vec<u8>>, Vec<u8>) {
-    let frames: Vec<Vec<u8>> = sc.script.iter().map(|s| frame_of(&s.op)).collect();
+    let frames: Vec<Vec<u8>> = sc.script.iter().map(|s| frame_of(s)).collect();
     let stream: Vec<u8> = frames.iter().flatten().copied().collect();
     (frames, stream)
 }
@@ -201,9 +204,13 @@ pub fn run(sc: &Scenario, opts: &RunOptions) -> RunRecord {
     let (frames, mut stream) = session_bytes(sc);
     let full_len = stream.len();
     let mut eof_at = None;
+    let mut read_error = false;
     for f in &sc.faults {
-        if let Fault::Eof { at_byte } = f {
+        if let Fault::Eof { at_byte } | Fault::ReadError { at_byte } = f {
             let at = (*at_byte).min(full_len);
+            if eof_at.map_or(true, |e: usize| at < e) {
+                read_error = matches!(f, Fault::ReadError { .. });
+            }
             eof_at = Some(eof_at.map_or(at, |e: usize| e.min(at)));
         }
     }
@@ -263,7 +270,7 @@ pub fn run(sc: &Scenario, opts: &RunOptions) -> RunRecord {
             Fault::Epipe { after_rx_bytes } => {
                 epipe_after = Some(epipe_after.map_or(*after_rx_bytes, |e| e.min(*after_rx_bytes)))
             }
-            Fault::Eof { .. } => {}
+            Fault::Eof { .. } | Fault::ReadError { .. } => {}
         }
     }
 
@@ -464,7 +471,12 @@ pub fn run(sc: &Scenario, opts: &RunOptions) -> RunRecord {
                         fired.delay += 1;
                     }
                 } else {
-                    sim.stdin_close();
+                    if read_error {
+                        sim.stdin_fail();
+                        fired.read_error += 1;
+                    } else {
+                        sim.stdin_close();
+                    }
                     stdin_closed = true;
                 }
             }
@@ -571,6 +583,7 @@ pub fn run(sc: &Scenario, opts: &RunOptions) -> RunRecord {
         written,
         consumed,
         eof_at,
+        read_error,
         epipe_fired,
         doc_obs,
         lex_obs,
